@@ -6,6 +6,7 @@ package main
 import (
 	"bytes"
 	"context"
+	"encoding/json"
 	"encoding/xml"
 	"fmt"
 	"io"
@@ -33,6 +34,18 @@ type rItem struct {
 	Tag  int    `json:"tag,omitempty"`  // nonza / serr / bad variant
 	Var  int    `json:"var,omitempty"`  // rendering variant (content)
 	XML  string `json:"xml,omitempty"`  // rendered element (filled by render)
+	Deep int    `json:"deep,omitempty"` // stanza: its (unknown) payload is nested this deep; the rendered text is not stored
+}
+
+// MarshalJSON: the rendering of a deeply nested payload (megabytes) is not written to case files and replays;
+// Decode renders it again.
+func (it rItem) MarshalJSON() ([]byte, error) {
+	type plain rItem
+	p := plain(it)
+	if p.Deep > 0 {
+		p.XML = ""
+	}
+	return json.Marshal(p)
 }
 
 type recvIn struct {
@@ -158,6 +171,17 @@ func renderStanza(kind, id, v int) string {
 func (it *rItem) render() {
 	switch it.T {
 	case "stanza":
+		if it.Deep > 0 {
+			// an unknown payload (iq), or an unknown child of <error/> (message), nested as deep as the peer likes
+			nest := strings.Repeat("<a>", it.Deep) + strings.Repeat("</a>", it.Deep)
+			if it.Kind == 2 {
+				it.XML = fmt.Sprintf("<iq id='%d' type='get'><q xmlns='urn:example:deep'>%s</q></iq>", it.ID, nest)
+			} else {
+				it.Kind = 0
+				it.XML = fmt.Sprintf("<message id='%d' type='error'><error type='cancel'><q xmlns='urn:example:deep'>%s</q></error></message>", it.ID, nest)
+			}
+			return
+		}
 		it.XML = renderStanza(it.Kind, it.ID, it.Var)
 	case "r":
 		it.XML = "<r xmlns='urn:xmpp:sm:3'/>"
